@@ -54,8 +54,13 @@ func evalVarAssignBlockText(vm *r.VM, blockText string) (r.ElementMap, error) {
 			return nil, err
 		}
 
-		// add the result into varInputMap
-		varInputMap[idExpr.GetLiteral()] = evalResult
+		// add the result into varInputMap (the target is a name like any other: something
+		// that starts like a number is rejected)
+		targetName, err := MatchIDName(idExpr)
+		if err != nil {
+			return nil, err
+		}
+		varInputMap[targetName.GetLiteral()] = evalResult
 	}
 
 	return varInputMap, nil
